@@ -572,3 +572,22 @@ def check_analysis(ctx: Ctx, oid: str):
     _need(ctx, oid, "R18 table", lb, "luby(i): 2^(k-1) when i = 2^k - 1, otherwise recurse on i - 2^(k-1) + 1", ["k = 1", "if i == (1 << k) - 1:\n            return 1 << k - 1", "if i < (1 << k) - 1:\n            i -= (1 << k - 1) - 1\n            k = 1\n        else:\n            k += 1"])
     rd = ctx.func("sat", "solve_sat.reduce_db")
     _need(ctx, oid, "R16 PAIRED-EFFECTS", rd, "database reduction renumbers the kept learned clauses: watches and binary implications of learned clauses are dropped and rebuilt for the kept ones", ["learned, lbd_scores = (keep, keep_lbd)", "watch_pos[v] = [c for c in watch_pos[v] if c < len(clauses)]", "watch_neg[v] = [c for c in watch_neg[v] if c < len(clauses)]", "big.clear_learned(len(clauses))", "idx = len(clauses) + i", "keep.append(clause)\n            keep_lbd.append(lbd_scores[orig_idx])"])
+
+
+def check_main_loop(ctx: Ctx, oid: str):
+    """The steps of the CDCL driver that the other obligations take for granted."""
+    f = ctx.func("sat", "solve_sat")
+    _need(ctx, oid, "R16 PAIRED-EFFECTS", f, "a conflict above level 0 is analysed, the solver jumps back to the computed level and records it as the current level, and the learned clause is stored with its LBD", ["learned_clause, bt_level, lbd = analyze(conflict)", "unassign_to(bt_level)\n            dec_level = bt_level", "clause_idx = len(clauses) + len(learned)\n            learned.append(learned_clause)\n            lbd_scores.append(lbd)", "if learned_clause:\n                assign(lit_var(learned_clause[0]), learned_clause[0] > 0, clause_idx)"])
+    _need(ctx, oid, "R16 PAIRED-EFFECTS", f, "restarts follow the Luby schedule: the conflict counter is compared with the current term, then reset; the solver returns to level 0 and reduces the clause database", ["conflicts_since_restart += 1", "if conflicts_since_restart >= next_restart:", "restarts += 1\n                luby_idx += 1\n                next_restart = luby_factor * luby(luby_idx)\n                conflicts_since_restart = 0\n                unassign_to(0)\n                dec_level = 0\n                reduce_db()", "conflicts_since_restart = 0\n    luby_idx = 1\n    next_restart = luby_factor * luby(luby_idx)"])
+    _need(ctx, oid, "R16 PAIRED-EFFECTS", f, "every change of the trail in the driver is followed by propagation before the next decision", ["reduce_db()\n            conflict = propagate()\n            continue", "unassign_to(0)\n            dec_level = 0\n            conflict = propagate()\n            continue", "conflict = propagate()\n    if conflict >= 0:\n        return Result(None, 0, decisions, propagations, Status.INFEASIBLE)"])
+    _need(ctx, oid, "R1 STATUS-GUARD", f, "a model is recorded when no unassigned variable is left; with the requested number reached it is returned at once", ["var = pick_var()\n        if var == 0:", "all_solutions.append(sol)\n            if len(all_solutions) >= solution_limit:\n                if solution_limit == 1:\n                    return Result(sol, len(sol), decisions, propagations)\n                return Result(sol, len(sol), decisions, propagations, solutions=tuple(all_solutions))"])
+    _need(ctx, oid, "R1 STATUS-GUARD", f, "trivial inputs: no clause or no variable -> the empty model", ["if not clauses:\n        return Result({}, 0, 0, 0)", "if n_vars == 0:\n        return Result({}, 0, 0, 0)"])
+    _need(ctx, oid, "R16 PAIRED-EFFECTS", f, "unit clauses are asserted at level 0 with their clause as reason; a contradicting one makes the formula infeasible", ["for lit, idx in unit_clauses:\n        var = lit_var(lit)\n        val = lit > 0\n        if vals[var] == UNDEF:\n            assign(var, val, idx)\n        elif (vals[var] == 1) != val:\n            return Result(None, 0, 0, 0, Status.INFEASIBLE)"])
+    un = ctx.func("sat", "solve_sat.unassign_to")
+    _need(ctx, oid, "R16 PAIRED-EFFECTS", un, "undoing an assignment saves its phase and clears its value", ["var = trail.pop()\n        phase[var] = vals[var] == 1\n        vals[var] = UNDEF"])
+    pv = ctx.func("sat", "solve_sat.pick_var")
+    _need(ctx, oid, "R1 STATUS-GUARD", pv, "pick_var returns the first popped variable that is unassigned, and 0 only when the heap is exhausted", ["while var_heap:", "if vals[var] == UNDEF:\n            return var", "return 0"])
+    fp = ctx.func("sat", "solve_sat.find_pure_literals")
+    _need(ctx, oid, "R18 table", fp, "a literal is pure when its variable occurs in one polarity only", ["if lit > 0:\n                pos_count[lit] += 1\n            else:\n                neg_count[-lit] += 1", "if pos_count[v] > 0 and neg_count[v] == 0:\n            pure.append((v, True))\n        elif neg_count[v] > 0 and pos_count[v] == 0:\n            pure.append((v, False))", "return pure"])
+    ba = ctx.func("sat", "solve_sat.bump_activity")
+    _need(ctx, oid, "R16 PAIRED-EFFECTS", ba, "a bumped variable that sits in the heap gets a fresh entry with its new activity", ["activity[var] += activity_inc", "if in_heap[var]:\n        heappush(var_heap, (-activity[var], var))"])
